@@ -88,6 +88,24 @@ def impl_decisions(value, k, names=None, by_object=False):
     return out
 
 
+KWLEAF = ['origin', 'android', 'note', 'ORder', 'nothing', 'And_x']
+
+
+def impl_decisions_attr(value, k):
+    """the same for leaves KWLEAF[i]:yes -- attribute checks on the credentials"""
+    from oslo_policy import policy
+    e = enforcer()
+    e.set_rules(policy.Rules.from_dict({'the_rule': value}), use_conf=False)
+    out = []
+    for m in range(2 ** k):
+        creds = {KWLEAF[i]: ('yes' if (m >> i) & 1 else 'no') for i in range(k)}
+        try:
+            out.append(bool(e.enforce('the_rule', {}, creds)))
+        except Exception as ex:   # noqa
+            out.append('EXC ' + type(ex).__name__)
+    return out
+
+
 # ---- grammar-first enumeration of the documented language
 def gen_oexps(n, k):
     """all oexp with exactly n nodes over leaves 0..k-1 (memoised)"""
@@ -236,6 +254,21 @@ def check_spec_case(run, o, k, text_variants, spec_dec, label):
                           'mask %d, documented value %r' % (text_variants[0], got[bad], bad, spec_dec[bad]),
                           {'kind': 'failing-input', 'suite': 'spec-c01',
                            'input': {'rule': text_variants[0], 'k': k, 'by_object': True},
+                           'expected': spec_dec, 'observed': got})
+            return False
+    if len(text_variants[0]) % 3 != 1 or label == 'deep':
+        # the same sentence over leaves of another kind: attribute checks whose names BEGIN like a keyword
+        text = text_variants[-1]
+        for i in range(k):
+            text = text.replace('role:r%d' % i, KWLEAF[i] + ':yes')
+        run.evaluations += 1
+        got = impl_decisions_attr(text, k)
+        if got != spec_dec:
+            bad = [m for m in range(len(got)) if got[m] != spec_dec[m]][0]
+            run.violation('decision:%s:keyword-like-leaves' % label,
+                          'rule %r decides %r when exactly the attributes of mask %d (over %r) are "yes", documented value %r'
+                          % (text, got[bad], bad, KWLEAF[:k], spec_dec[bad]),
+                          {'kind': 'failing-input', 'suite': 'spec-c01', 'input': {'rule': text, 'k': k, 'attr_leaves': True},
                            'expected': spec_dec, 'observed': got})
             return False
     if k >= 1 and len(text_variants[0]) % 2 == 0:
@@ -419,6 +452,22 @@ def run(run, binfo):
                                'observed': got})
         if len(set(decs)) > 1:
             run.nontrivial.add(repr(sh))
+        if any(isinstance(x, list) for x in sh):
+            # Python callers may hand over tuples wherever lists are accepted: inner, outer, both
+            for tv in (tuple(sh), [tuple(x) if isinstance(x, list) else x for x in sh],
+                       tuple(tuple(x) if isinstance(x, list) else x for x in sh)):
+                try:
+                    e.set_rules(policy.Rules.from_dict({'the_rule': tv}), use_conf=False)
+                    tdecs = [bool(e.enforce('the_rule', {}, {'roles': rs})) for rs in role_sets]
+                except Exception as ex:   # noqa
+                    tdecs = 'EXC ' + type(ex).__name__
+                run.evaluations += 1
+                if tdecs != decs:
+                    run.violation('list-rule:tuples', 'rule %r decides %r over the role sets %r, the same shape written with lists %r'
+                                  % (tv, tdecs, role_sets, decs),
+                                  {'kind': 'failing-input', 'suite': 'spec-list',
+                                   'input': {'rule': repr(tv), 'role_sets': role_sets}, 'expected': decs, 'observed': tdecs})
+                    break
     run.count('list_shapes', len(shapes))
     run.sample({'suite': 'spec-list', 'rule': shapes[len(shapes) // 2]})
 
@@ -443,6 +492,17 @@ def run(run, binfo):
 
 def replay(run, rep):
     inp = rep.get('input')
+    if isinstance(inp, dict) and inp.get('attr_leaves'):
+        got = impl_decisions_attr(inp['rule'], inp['k'])
+        print('observed', got, 'expected', rep.get('expected'))
+        return got == rep.get('expected')
+    if isinstance(inp, dict) and 'role_sets' in inp:
+        from oslo_policy import policy
+        e = enforcer()
+        e.set_rules(policy.Rules.from_dict({'the_rule': eval(inp['rule'])}), use_conf=False)
+        got = [bool(e.enforce('the_rule', {}, {'roles': rs})) for rs in inp['role_sets']]
+        print('observed', got, 'expected', rep.get('expected'))
+        return got == rep.get('expected')
     if isinstance(inp, dict) and 'k' in inp:
         got = impl_decisions(inp['rule'], inp['k'], by_object=bool(inp.get('by_object')))
         print('observed', got, 'expected', rep.get('expected'))
